@@ -269,6 +269,7 @@ class EncodeState:
 
         # If the bit length is zero, encode an empty value
         if bit_length == 0:
+            self.cursor_bit_position = 0
             self.emplace_bytes(b'')
             return
 
